@@ -948,3 +948,59 @@ Proof.
       destruct (run c e' ins1) as [e2 tr]. cbn [fst snd] in *.
       split; [constructor; [split; [apply all_hrr_nil | reflexivity] | exact Hall]|]. auto.
 Qed.
+
+(* the NewSessionTicket timer of a completed server obeys the same law *)
+Theorem nst_timer_step c e :
+  e_fst e = Finished -> e_nst e <> [] ->
+  let e' := fst (on_timer c e) in
+  e_nsti e' = (if c_backoff c then cap60 (2 * e_nsti e) else e_nsti e) /\
+  e_nstt e' = e_nstt e + e_nsti e' /\ e_nst e' = e_nst e /\ snd (on_timer c e) = pack c (e_nst e).
+Proof.
+  intros Hf Hn. unfold on_timer. rewrite Hf. destruct (e_nst e) eqn:E; [congruence|]. cbn. auto.
+Qed.
+
+(* ---------- instances on the regenerated flight structures ---------- *)
+
+Definition cfg13 (raw : N * bool * list (N * list (N * N * N * N * N * N * N))) : cfg := mk_cfg g13_flags raw 1000 true.
+
+Lemma hrr_cfg_v13 : hrr_cfg (cfg13 g13_v13). Proof. repeat split; vm_compute; reflexivity. Qed.
+Lemma hrr_cfg_v13_hrr : hrr_cfg (cfg13 g13_v13_hrr). Proof. repeat split; vm_compute; reflexivity. Qed.
+Lemma hrr_cfg_v13_clientauth : hrr_cfg (cfg13 g13_v13_clientauth). Proof. repeat split; vm_compute; reflexivity. Qed.
+Lemma hrr_cfg_v13_hrr_clientauth : hrr_cfg (cfg13 g13_v13_hrr_clientauth). Proof. repeat split; vm_compute; reflexivity. Qed.
+Lemma hrr_cfg_v13_hrr_mtu300 : hrr_cfg (cfg13 g13_v13_hrr_mtu300). Proof. repeat split; vm_compute; reflexivity. Qed.
+Lemma hrr_cfg_v13_mtu300 : hrr_cfg (cfg13 g13_v13_mtu300). Proof. repeat split; vm_compute; reflexivity. Qed.
+Lemma hrr_cfg_v13_mtu120 : hrr_cfg (cfg13 g13_v13_mtu120). Proof. repeat split; vm_compute; reflexivity. Qed.
+
+(* liveness: every state of the adversarial closure completes within 2 reliable rounds *)
+Lemma live_v13 : live_check 400 2 (cfg13 g13_v13) = true. Proof. vm_compute. reflexivity. Qed.
+Lemma live_v13_hrr : live_check 400 2 (cfg13 g13_v13_hrr) = true. Proof. vm_compute. reflexivity. Qed.
+Lemma live_v13_direct : live_check 400 2 (cfg13 g13_v13_direct) = true. Proof. vm_compute. reflexivity. Qed.
+Lemma live_v13_clientauth : live_check 400 2 (cfg13 g13_v13_clientauth) = true. Proof. vm_compute. reflexivity. Qed.
+Lemma live_v13_hrr_clientauth : live_check 400 2 (cfg13 g13_v13_hrr_clientauth) = true. Proof. vm_compute. reflexivity. Qed.
+
+(* one round is not always enough: a state in which the HelloRetryRequest was repeated less than
+   half an interval ago lets the next repeated ClientHello go unanswered *)
+Lemma live_v13_one_round_refuted : forallb (live_from 1 (cfg13 g13_v13)) (reach_set 400 (cfg13 g13_v13)) = false.
+Proof. vm_compute. reflexivity. Qed.
+
+(* ---------- amplification witness ---------- *)
+
+Definition upto (a n : N) : list N := map (fun i => a + N.of_nat i) (seq 0 (N.to_nat n)).
+
+(* MTU 120: the fault-free exchange up to the server's Flight 4 (14 + 14 ClientHello datagrams, one
+   HelloRetryRequest); at 1000 ms both retransmission timers fire; then ONE of the client's
+   retransmitted ClientHello fragments (a 145-byte datagram) is delivered to the server *)
+Definition storm_cfg : cfg := cfg13 g13_v13_mtu120.
+Definition storm_moves : list move :=
+  map (fun k => Deliver true k 0) (upto 0 14) ++ [Deliver false 0 0] ++ map (fun k => Deliver true k 0) (upto 14 14).
+
+Definition sout_len (o : option sys) : nat := match o with Some s => length (s_sout s) | None => 0 end.
+
+(* every received datagram flagged as a retransmission makes the DTLS 1.3 state machine send its
+   whole current flight again: here one stale fragment costs 16 datagrams (the constant of the
+   emission bound is the flight size, not a small number) *)
+Lemma storm_witness :
+  sout_len (run_moves storm_cfg (sys_init storm_cfg) storm_moves) = 17%nat /\
+  sout_len (run_moves storm_cfg (sys_init storm_cfg) (storm_moves ++ [Deliver true 28 1000])) = 49%nat /\
+  maxrecs storm_cfg = 16%nat.
+Proof. vm_compute. repeat split; reflexivity. Qed.
